@@ -52,7 +52,7 @@ ASSUMPTIONS = [
 PROBES = ["deferred-commit", "precompiled-segment", "template-used", "flush-after-precompile", "nv-transpiler", "loop-in-precompiled",
           "value-crosses-precompile", "regfuture-in-precompiled", "two-precompiled-segments"]
 
-ALLOW = {"qblock", "qubit", "gate", "measure", "array", "loop", "rot", "add", "if", "empty-body", "regfuture"}
+ALLOW = {"qblock", "qubit", "gate", "measure", "array", "loop", "loop-start-step", "rot", "add", "if", "empty-body", "regfuture"}
 
 
 def subst(x: Any, mapping: Dict[str, Any]) -> Any:
